@@ -472,12 +472,30 @@ def build_c08(rng, tier):
         sc = gen_base(rng, p)
         sc['reach'] = True
         return sc
-    return gen_base(rng, gen_params(rng))
+    p = gen_params(rng)
+    if p['mp'] == 'spa' and rng.random() < 0.5:
+        # wider project / lecturer counts: every relation of n2 mod n3
+        p['n2'] = rng.randint(1, 9)
+        p['n3'] = rng.randint(1, 6)
+        p['pmax'] = rng.randint(1, min(p['n2'], 4))
+        p['pmin'] = rng.randint(1, p['pmax'])
+        p['uq'] = rng.randint(p['n2'], p['n2'] + 4)
+        if p.get('lq') is not None:
+            p['lq'] = min(p['lq'], p['uq'])
+    return gen_base(rng, p)
 
 
 def build_c12(rng, tier):
     mp = rng.choice(['sm', 'hr', 'spa', 'spa'])
     p = gen_params(rng, mp=mp, twopl=True)
+    if mp == 'spa' and rng.random() < 0.5:
+        p['n2'] = rng.randint(1, 9)
+        p['n3'] = rng.randint(1, 6)
+        p['pmax'] = rng.randint(1, min(p['n2'], 4))
+        p['pmin'] = rng.choice([rng.randint(1, p['pmax']), p['pmax']])
+        p['uq'] = rng.randint(p['n2'], p['n2'] + 4)
+        if p.get('lq') is not None:
+            p['lq'] = min(p['lq'], p['uq'])
     return gen_base(rng, p)
 
 
